@@ -507,7 +507,7 @@ def pair_stage(scripts, tag, fresh_every):
                     raise V.ToolError("qv run failed on shard %d (rc=%d): %s" % (k, rc, o[-2000:]))
                 outs.append(os.path.join(od, "master.ndjson"))
             z = os.path.join(d, "fresh_%02d.ndjson" % k)
-            V.sh([V.QV, "zip", outs[0], outs[1], z], 600)
+            V.sh([V.QV, "zip", outs[0], outs[1], z], 3000)
             for od in outs:
                 import shutil
                 shutil.rmtree(os.path.dirname(od), ignore_errors=True)
